@@ -18,7 +18,7 @@ CLAIM = {
             "refusal exit; callee failures count only when the callee is itself non-atomic; values owned by the "
             "function (staged copies, fresh objects) are not state. (R10.2) Handler::with_persist returns Err only "
             "after testing that no mutation is pending. Every remaining (site, exit) pair is either a one-line reasoned "
-            "exception (infeasible pair) or a listed known finding. Does not decide equality of serialized state "
+            "exception (infeasible pair) or a listed known finding. (R10.3) the chain tracker counts too: in add_block / remove_block every mutation of the tracked state comes after the last check that can refuse (same rule as C13 R13.1). Does not decide equality of serialized state "
             "(runtime values) nor effects inside dependency crates.",
     "note": "non-permissive policy; CHA for dyn calls; storage failures (Persist::*, Channel::persist) are not refusals",
     "technique": "static analysis: effect/mutation summaries over MIR + CFG reachability to refusal exits (failure atomicity)",
@@ -89,6 +89,7 @@ def run(ctx):
     ctx.assumptions += ["storage failures are not refusals (property text)", "non-permissive policy"]
     r101(ctx)
     r102(ctx)
+    r103(ctx)
 
 
 def site_tag(desc):
@@ -169,3 +170,9 @@ def r102(ctx):
         ctx.ob("R10.2", ok, f"{b.name}/err-needs-empty-muts",
                "with_persist can return an error while the transactional store has pending mutations",
                where=f"{b.file}:{r['line']}", sample="Err return dominated by muts.is_empty() == true (or failed enter)")
+
+
+def r103(ctx):
+    # the chain tracker is part of "the state a refused request must leave as it was": same rule as C13 R13.1
+    from rules import C13
+    C13.r131(ctx, rid="R10.3")
